@@ -476,6 +476,10 @@ class _RealFinder:
     def is_assigned_here(self, offset):
         return self.get_assignment_type(offset) is not None
 
+    _ASSIGNMENT_OPERATORS = frozenset(
+        "= := += -= *= /= %= &= |= ^= @= //= **= >>= <<=".split()
+    )
+
     def get_assignment_type(self, offset):
         # XXX: does not handle tuple assignments
         word_end = self._find_word_end(offset)
@@ -485,7 +489,7 @@ class _RealFinder:
         triple = self.code[next_char : next_char + 3]
         if double not in ("==", "<=", ">=", "!="):
             for op in [single, double, triple]:
-                if op.endswith("="):
+                if op in self._ASSIGNMENT_OPERATORS:
                     return op
 
     def get_primary_range(self, offset):
